@@ -129,6 +129,7 @@ def run(ctx, rep):
             meta.append((case, (0, len(ag.constants), calls["n"])))
     sequences(ctx, rep)
     optimizer_reuse(ctx, rep)
+    nonfinite_endings(ctx, rep)
     if ctx.driver_ok:
         outs = run_driver(lines)
         rep.corr_cases = len(lines)
@@ -243,6 +244,54 @@ def optimizer_reuse(ctx, rep):
             if ag.needs_local_optimization():
                 rep.violate(f"the {k + 1}-th individual served by one optimizer still requests optimization", "C06:still-needs-opt", case)
                 break
+
+
+def nonfinite_endings(ctx, rep):
+    """equations whose residual is non-finite whatever the constants (division by x - x, overflowing exp, log at 0): some scipy methods
+    end on inf / nan constants.  The wrapper's clauses hold there too: the returned value is the base fitness of what is stored, the
+    equation no longer requests optimization, and a second evaluation neither optimizes again nor changes the constants."""
+    rng = ctx.rng
+    eqs = ["(1.0)/(X_0 - X_0)", "exp((1.0)*(X_0))", "log((1.0)*(X_0))", "(1.0)*(X_0) + (1.0)/(X_0 - X_0)", "(1.0)*(X_0) + 1.0"]
+    for t in range(ctx.n(30, 240)):
+        e = eqs[t % len(eqs)]
+        method = rng.choice(["BFGS", "CG", "SLSQP", "lm", "Nelder-Mead", "Powell", "TNC", "L-BFGS-B"])
+        metric = rng.choice(["mse", "mae", "rmse"])
+        x = np.array([[0.0], [1.0], [250.0], [800.0], [-3.0]]) if "exp" in e or "log" in e else np.array([[rng.uniform(0.5, 2.0)] for _ in range(5)])
+        y = 2.0 * x + 1.0
+        base = ExplicitRegression(ExplicitTrainingData(x, y), metric=metric)
+        opt = ScipyOptimizer(base, method=method)
+        lo = LocalOptFitnessFunction(base, opt)
+        ag = AGraph(equation=e)
+        case = {"equation": e, "method": method, "metric": metric, "x": x.ravel().tolist()}
+        rep.case(("nonfinite", e, method, metric, t), True)
+        np.random.seed(rng.randrange(2 ** 31))
+        calls = {"n": 0}
+        orig = opt.__class__.__call__
+
+        def counting(self_, ind, _o=orig):
+            calls["n"] += 1
+            return _o(self_, ind)
+        try:
+            with warnings.catch_warnings():
+                warnings.simplefilter("ignore")
+                with np.errstate(all="ignore"):
+                    v1 = lo(ag)
+                    c1 = [float(c) for c in ag.constants]
+                    rep.count("nonfinite_family", "constants ended non-finite" if not np.all(np.isfinite(c1)) else "constants finite")
+                    needs = ag.needs_local_optimization()
+                    opt.__class__.__call__ = counting
+                    try:
+                        v2 = lo(ag)
+                    finally:
+                        opt.__class__.__call__ = orig
+                    c2 = [float(c) for c in ag.constants]
+        except Exception as exc:
+            rep.violate(f"locally-optimizing fitness raised {type(exc).__name__}: {exc}", "C06:raised", case)
+            continue
+        if needs:
+            rep.violate(f"{e} with {method}: the equation still requests optimization after the wrapper ran (constants {c1})", "C06:still-needs-opt", case)
+        elif calls["n"] or not all(a == b or (math.isnan(a) and math.isnan(b)) for a, b in zip(c1, c2)):
+            rep.violate(f"{e} with {method}: a second evaluation invoked the optimizer again / changed the constants {c1} -> {c2}", "C06:still-needs-opt", case)
 
 
 def refit(ctx, rep):
